@@ -84,6 +84,10 @@ pub struct Scenario {
     pub lops: Vec<LOp>,
     pub conns: Vec<Connector>,
     pub script: Vec<(u32, LinkAct)>,
+    /// the listener's port is the first port of the default ephemeral range (49152) instead of 2000:
+    /// connectors on the listener's own host draw their local ports from that very range
+    #[serde(default)]
+    pub lport_eph: bool,
 }
 
 pub struct C12;
@@ -184,7 +188,7 @@ fn gen_scenario(rng: &mut Rng) -> Scenario {
     if !remote.is_empty() && rng.chance(1, 2) {
         // hold and one-way partitions are not mixed (documented as unsupported); a full partition
         // of a held link is fine: it drops what the hold kept back
-        let kind = rng.below(6);
+        let kind = rng.below(7);
         let part = kind < 2;
         for _ in 0..rng.usize(1, 2) {
             let h = *rng.pick(&remote);
@@ -203,6 +207,13 @@ fn gen_scenario(rng: &mut Rng) -> Scenario {
                         script.push((s3 + 1, LinkAct::Release(h, 0)));
                     }
                 }
+            } else if kind == 6 {
+                // one direction cut first (either one), then the whole link
+                script.push((s1, if rng.bool() { LinkAct::PartitionOneway(0, h) } else { LinkAct::PartitionOneway(h, 0) }));
+                script.push((s2, LinkAct::Partition(h, 0)));
+                if rng.chance(1, 2) {
+                    script.push((s2 + rng.range(1, 6 + 2 * lat) as u32, LinkAct::Repair(h, 0)));
+                }
             } else if kind == 5 {
                 // hold, then repair (which does not let go of what the hold kept back), then release
                 script.push((s1, LinkAct::Hold(h, 0)));
@@ -220,7 +231,7 @@ fn gen_scenario(rng: &mut Rng) -> Scenario {
         }
         script.sort_by_key(|(s, _)| *s);
     }
-    Scenario { cfg, guarded, hosts, lops, conns, script }
+    Scenario { cfg, guarded, hosts, lops, conns, script, lport_eph: rng.chance(1, 6) }
 }
 
 // ------------------------------------------------------------------------------------------------
@@ -270,6 +281,7 @@ struct Sh {
     tick: Duration,
     hosts: usize,
     ipv6: bool,
+    lport: u16,
 }
 
 impl Sh {
@@ -340,12 +352,12 @@ async fn listener_prog(sh: Sh, sc: Rc<Scenario>) {
                     continue;
                 }
                 let ip = if *localhost { loopback(sh.ipv6) } else { wildcard(sh.ipv6) };
-                match TcpListener::bind((ip, LPORT)).await {
+                match TcpListener::bind((ip, sh.lport)).await {
                     Ok(x) => {
-                        sh.host_ev(Ev::LBind { ok: true, localhost: *localhost }, format!("listener: bind {ip}:{LPORT} -> Ok"));
+                        sh.host_ev(Ev::LBind { ok: true, localhost: *localhost }, format!("listener: bind {ip}:{} -> Ok", sh.lport));
                         l = Some(x);
                     }
-                    Err(e) => sh.host_ev(Ev::LBind { ok: false, localhost: *localhost }, format!("listener: bind {ip}:{LPORT} -> Err {}", kind_name(e.kind()))),
+                    Err(e) => sh.host_ev(Ev::LBind { ok: false, localhost: *localhost }, format!("listener: bind {ip}:{} -> Err {}", sh.lport, kind_name(e.kind()))),
                 }
             }
             LOp::Accept { keep } => {
@@ -377,7 +389,7 @@ async fn listener_prog(sh: Sh, sc: Rc<Scenario>) {
 
 async fn connector(sh: Sh, x: usize, c: Connector) {
     sh.sleep_ticks(c.start.max(1) as u64).await;
-    let port = if c.target == Target::UnboundPort { DEAD_PORT } else { LPORT };
+    let port = if c.target == Target::UnboundPort { DEAD_PORT } else { sh.lport };
     sh.host_ev(Ev::ConnStart { x }, format!("connector {x} on h{}: connect {:?} via {:?} timeout {:?}", c.host, c.target, c.via, c.timeout));
     let (sh2, ipv6) = (sh.clone(), sh.ipv6);
     let fut = async move {
@@ -496,6 +508,7 @@ fn execute(sc: &Scenario, keep: bool) -> (Report, Option<Outcome>) {
         tick: sc.cfg.tick(),
         hosts: sc.hosts,
         ipv6: sc.cfg.ipv6,
+        lport: if sc.lport_eph { 49152 } else { LPORT },
     };
     let scr = Rc::new(sc.clone());
     let cap = step_cap(sc);
@@ -845,7 +858,7 @@ fn judge(sc: &Scenario, o: &Outcome, probes: &mut Counters) -> (Option<Violation
     }
     // the listener program only binds when it holds no listener: a failing bind is a violation
     if let Some(step) = bind_failed_after_drop {
-        return (Some(Violation::new("BindFailed", format!("TcpListener::bind on port {LPORT} failed at step {step} although the program holds no listener on that port (after a drop the port must be bindable again)"))), false);
+        return (Some(Violation::new("BindFailed", format!("TcpListener::bind on the listener port failed at step {step} although the program holds no listener on that port (after a drop the port must be bindable again)"))), false);
     }
 
     // ---- arrivals ----
